@@ -273,7 +273,11 @@ def scan_sources():
 def drive(lines, timeout=1800):
     """send operation lines to the compiled model driver, return output lines"""
     if not os.path.exists(DRIVER):
-        raise Infra("driver not built")
+        # another run may be relinking the driver right now (the proof stage holds the lock while it builds): wait for it once
+        with LakeLock():
+            pass
+        if not os.path.exists(DRIVER):
+            raise Infra("driver not built")
     inp = "".join(l + "\n" for l in lines)
     try:
         p = subprocess.run([DRIVER], input=inp, capture_output=True, text=True, timeout=timeout)
